@@ -1,6 +1,7 @@
 """C06 native drivers: the two loop-output policies on the real classes, for 0..15 iterations in shuffled arrival order."""
 import asyncio
 import json
+import os
 import sys
 
 from common import finish_replay, load_replay, main, rng
@@ -38,13 +39,98 @@ def search(n):
     return None
 
 
+async def loop_step_case(context):
+    """a real LoopCombinatorStep around 1..14 loop instances (scatter elements) with different iteration counts; the driver plays
+    condition, body and loop terminator.  Every instance must see the iterations 0..count in order, and the step must end only
+    after every instance has finished."""
+    import posixpath
+
+    from streamflow.core import utils
+    from streamflow.core.workflow import Status, Workflow
+    from streamflow.workflow.combinator import LoopCombinator
+    from streamflow.workflow.step import LoopCombinatorStep
+    from streamflow.workflow.token import IterationTerminationToken, TerminationToken
+
+    n = rng.choice([1, 2, 3, 4, 11, 12, 14])
+    counts = [rng.choice([0, 1, 2, 3, 9, 10, 12]) for _ in range(n)]
+    wf = Workflow(context=context, name=utils.random_name(), config={})
+    in_port, out_port = wf.create_port(), wf.create_port()
+    name = posixpath.join(posixpath.sep, utils.random_name()) + "-loop-combinator"
+    comb = LoopCombinator(name=name, workflow=wf)
+    comb.add_item("x")
+    step = wf.create_step(cls=LoopCombinatorStep, name=name, combinator=comb)
+    step.add_input_port("x", in_port)
+    step.add_output_port("x", out_port)
+    await wf.save(context.database)
+
+    async def feed(tok):
+        await tok.save(context.database, in_port.persistent_id)
+        in_port.put(tok)
+
+    for k in rng.sample(range(n), n):
+        await feed(Token(value=0, tag=f"0.{k}"))
+    in_port.put(TerminationToken(Status.COMPLETED))
+    seen = {f"0.{k}": [] for k in range(n)}
+    done = set()
+    task = asyncio.create_task(step.run())
+    try:
+        while True:
+            try:
+                tok = await asyncio.wait_for(out_port.get("driver"), 10)
+            except asyncio.TimeoutError:
+                return {"failure": "the loop step neither emits nor terminates (it waits for an instance that does not exist)", "iteration_counts": counts,
+                        "finished": sorted(done)}
+            if isinstance(tok, TerminationToken):
+                break
+            prefix, _, idx = tok.tag.rpartition(".")
+            if prefix not in seen:
+                return {"failure": "a token of an unknown loop instance was emitted", "tag": tok.tag, "iteration_counts": counts}
+            seen[prefix].append(int(idx))
+            if int(idx) < counts[int(prefix.split(".")[-1])]:
+                await feed(Token(value=tok.value + 1, tag=tok.tag))
+            else:
+                done.add(prefix)
+                in_port.put(IterationTerminationToken(tag=prefix))
+        await asyncio.wait_for(task, 30)
+    finally:
+        if not task.done():
+            task.cancel()
+            await asyncio.gather(task, return_exceptions=True)
+    for k, c in enumerate(counts):
+        if seen[f"0.{k}"] != list(range(c + 1)):
+            return {"failure": "a loop instance did not run its iterations 0..count in order", "instance": f"0.{k}", "iterations": seen[f"0.{k}"], "count": c,
+                    "iteration_counts": counts}
+        if f"0.{k}" not in done:
+            return {"failure": "the loop step terminated before every loop instance had emitted its output", "instance": f"0.{k}", "iteration_counts": counts}
+    return None
+
+
+async def loop_step_search(n):
+    import tempfile
+
+    from streamflow.main import build_context
+
+    workdir = tempfile.mkdtemp(prefix="c06.")
+    context = build_context({"database": {"type": "default", "config": {"connection": ":memory:"}}, "path": workdir})
+    try:
+        for _ in range(n):
+            bad = await loop_step_case(context)
+            if bad:
+                return bad
+    finally:
+        await context.close()
+        os.rmdir(workdir)
+    return None
+
+
 def replay(path):
     load_replay(path)
-    finish_replay(path, search(400), "(400 instances, 0..15 iterations, shuffled arrival)")
+    bad = search(400) or asyncio.run(loop_step_search(25))
+    finish_replay(path, bad, "(400 output-policy instances, 0..15 iterations, shuffled arrival; 25 loop-step runs with 1..14 instances)")
 
 
 def crosscheck(n):
-    bad = search(int(n) * 4)
+    bad = search(int(n) * 4) or asyncio.run(loop_step_search(max(12, int(n) // 4)))
     print(json.dumps({"inputs": int(n) * 4, "native_contract_failures": 1 if bad else 0, "samples": [bad] if bad else []}, default=str))
     sys.exit(1 if bad else 0)
 
